@@ -83,6 +83,20 @@ theorem cur_printer_regroups :
   · decide +kernel
   · decide +kernel
 
+/-- Number literals are written through unchanged: the literal texts of the printed equation are,
+    in order, the literal texts of the flat lhs and rhs (for both printer variants and every builtin
+    list) — mangling, parenthesising and operators never touch, drop, duplicate or reorder a literal.
+    (That a literal text `str(value)` denotes `value` again is CPython's float repr round trip; it is
+    outside the model and compared exactly on every run.) -/
+theorem literals_pass_through (v : Variant) (B : List Name) (l r : E) :
+    tokLits (eqToks v B l r) = lits l ++ lits r := by
+  cases v <;>
+    simp [eqToks, printer, prEq, toPy, tokLits_append, tokLits, tokLits_prFix, tokLits_prCur, lits_rename]
+
+example : tokLits (eqToks Variant.fix [] (v "y")
+    (E.bin 0 (E.bin 2 (E.atom (Atom.num (nm "1234567.5"))) (v "x")) (E.atom (Atom.num (nm "100000.5")))))
+    = [nm "1234567.5", nm "100000.5"] := by decide +kernel
+
 /-! ## names -/
 
 /-- Distinct flat names get distinct Python identifiers when both are clean (no `__`, no `_.`)
